@@ -464,6 +464,44 @@ def run_tv(ctx, model, scico):
                 ctx.count("fd:1-D code-shaped diff checked")
 
 
+def run_tv_exhaustive(ctx, model, scico):
+    """exhaustive small scope: every shape of rank <= 2 (quick) / <= 3 (thorough) with axis sizes 1..3, every non-empty
+    subset of axes, both boundary modes, both norms, on a fixed non-constant real image; plus the operator itself axis by
+    axis.  (The theorems C09_tv_nd / C09_tv_norms quantify over all shapes; this ties the model's index formula to the code
+    on a complete small scope rather than on a sample.)"""
+    import jax
+    import scico.functional as F
+    import scico.numpy as snp
+
+    maxrank = 3 if ctx.thorough else 2
+    shapes = [sh for r_ in range(1, maxrank + 1) for sh in itertools.product((1, 2, 3), repeat=r_)]
+    done = 0
+    for shape in shapes:
+        n = int(np.prod(shape))
+        a = (((7 * np.arange(n) ** 2 + 3 * np.arange(n)) % 11) - 5.0).reshape(shape) / 2  # fixed dyadic, non-constant
+        rank = len(shape)
+        for axes in [c for r_ in range(1, rank + 1) for c in itertools.combinations(range(rank), r_)]:
+            for circ in (False, True):
+                for iso in (False, True):
+                    cls = F.IsotropicTVNorm if iso else F.AnisotropicTVNorm
+                    impl = _impl(lambda: float(cls(circular=circ, axes=axes, input_dtype=np.float64)(snp.array(a))))
+                    mod = _model(model, "feval", fn="tv", cplx=False, iso=iso, circular=circ, shape=list(shape), axes=list(axes),
+                                 comps=[fs2b(a.ravel())])
+                    ds = np.stack([_np_fd(a, ax, circ) for ax in axes])
+                    formula = float(np.sum(np.sqrt(np.sum(np.abs(ds) ** 2, axis=0)))) if iso else float(np.sum(np.abs(ds)))
+                    case = {"iso": iso, "circular": circ, "shape": list(shape), "axes": list(axes), "cplx": False,
+                            "comps": [fs2b(a.ravel())], "stream": "exhaustive"}
+                    ctx.case({k: case[k] for k in ("iso", "circular", "shape", "axes", "stream")},
+                             ("tv-exh", iso, circ, shape, axes) if formula != 0 else None)
+                    _check(ctx, "feval.tv", case, impl, mod, formula, k=256)
+                    done += 1
+                    if done % 100 == 0:
+                        jax.clear_caches()
+    ctx.count("tv:exhaustive small scope", done)
+    ctx.extra["tv_exhaustive_scope"] = (f"all shapes of rank <= {maxrank} with axis sizes in {{1,2,3}} x all non-empty axes subsets x "
+                                        f"circular/append=0 x isotropic/anisotropic, real data: {done} configurations")
+
+
 # --------------------------------------------------------------------------
 # ProximalAverage, losses
 
@@ -491,7 +529,10 @@ def run_proxavg(ctx, model, scico):
             alphas = [float(k + 1) / 4 for k in rng.permutation(n)]
             x = -np.abs(x) - 0.25
             noinf = bool(rng.random() < 0.8)
-        ok_ctor = all(o.has_prox for o in objs)
+        if alphas is not None and rng.random() < 0.1:
+            alphas = list(alphas) + [0.5] if rng.random() < 0.5 or len(alphas) == 1 else list(alphas)[:-1]  # wrong length: ValueError
+            ctx.count("proxavg:alpha_list of the wrong length")
+        ok_ctor = all(o.has_prox for o in objs) and (alphas is None or len(alphas) == n)
         built = _impl(lambda: F.ProximalAverage(objs, alpha_list=alphas, no_inf_eval=noinf))
         case = {"leaves": leaves, "alphas": alphas, "noinf": noinf, "x": fs2b(x)}
         ctx.case({"proxavg": [d["kind"] for d in leaves], "alphas": alphas is not None, "noinf": noinf},
@@ -503,6 +544,14 @@ def run_proxavg(ctx, model, scico):
         if built[0] != "ok":
             if built[1] != "value":
                 ctx.disagree("proxavg.ctor", case, list(built), ["err", "value"])
+            elif all(o.has_prox for o in objs):
+                # rejected because of the weights: the model's argument check must reject as well
+                try:
+                    model.call("feval", fn="proxavg", cplx=False, n=n, alphas=fs2b(alphas), noinf=noinf, vals=fs2b([0.0] * n))
+                    ctx.disagree("proxavg.ctor", case, list(built), "model accepts")
+                except ModelErr as e:
+                    if e.kind != "value":
+                        ctx.disagree("proxavg.ctor", case, list(built), ["err", e.kind])
             continue
         pa = built[1]
         he = all(bool(o.has_eval) for o in objs)
@@ -841,6 +890,7 @@ def correspond(ctx, model):
     run_nuclear(ctx, model, scico)
     run_dist(ctx, model, scico)
     run_tv(ctx, model, scico)
+    run_tv_exhaustive(ctx, model, scico)
     run_proxavg(ctx, model, scico)
     run_losses(ctx, model, scico)
     run_losses_block(ctx, model, scico)
